@@ -85,6 +85,25 @@ def _origin(expr, assigns, seen=()):
     return None
 
 
+def _self_rebound_to_copy_before(func, par, call):
+    """is there a statement `self = self.copy()` in a block enclosing `call`, before the statement that contains it?"""
+    node = call
+    while node in par:
+        parent = par[node]
+        for field in ("body", "orelse", "finalbody"):
+            block = getattr(parent, field, None)
+            if isinstance(block, list) and node in block:
+                for st in block[:block.index(node)]:
+                    if isinstance(st, ast.Assign) and len(st.targets) == 1 and dotted(st.targets[0]) == "self" \
+                            and isinstance(st.value, ast.Call) and dotted(st.value.func) == "self.copy" \
+                            and not st.value.args and not st.value.keywords:
+                        return True
+        if parent is func:
+            break
+        node = parent
+    return False
+
+
 def direct_record(func, label):
     """RNone | RRecv | RCopy for the direct calls of _update_display_name_mapping in func (fail-closed)."""
     par = _parents(func)
@@ -93,6 +112,8 @@ def direct_record(func, label):
     for n in ast.walk(func):
         if isinstance(n, ast.Call) and isinstance(n.func, ast.Attribute) and n.func.attr == RECORD:
             o = _origin(n.func.value, assigns)
+            if o == "self" and _self_rebound_to_copy_before(func, par, n):
+                o = "copy"           # `self = self.copy()` dominates the call: the receiver is no longer the user's frame
             if o == "self":
                 kinds.add("RRecv")
             elif o == "copy":
